@@ -299,7 +299,28 @@ def monitor_options(chk, rng, lines):
     chk.count("option_lines_checked")
 
 
+def nested_corpus(chk):
+    """directed: two repositories whose URLs are nested, in both line orders, with a skip-clean URL below both of them (each
+    must protect the path relative to itself), and one below the outer repository only"""
+    outer, inner = URLS[0], URLS[4]
+    for order in ((outer, inner), (inner, outer)):
+        lines = [f"deb {u} stable main" for u in order] + [f"clean {u}" for u in order]
+        for skip, want in ((f"{inner}/pool/keep", {outer: "pve/pool/keep", inner: "pool/keep"}), (f"{outer}/pool/keep", {outer: "pool/keep"})):
+            cfg, err = real_config(lines, [f"skip-clean {skip}"])
+            replay = {"lines": lines, "option": f"skip-clean {skip}"}
+            if cfg is None:
+                chk.violation("option:raises:skip-clean", replay, f"raises {err}")
+                continue
+            snap = snapshot_options(cfg)
+            for k in (outer, inner):
+                exp = [want[k]] if k in want else []
+                if snap[k]["skip_clean"] != exp:
+                    chk.violation("option:scope:skip-clean", replay, f"repository {k}: skip_clean {snap[k]['skip_clean']}, expected {exp}")
+            chk.count("nested_skip_clean_cases")
+
+
 def run(chk, tier, rng):
+    nested_corpus(chk)
     default_arch = real_config(["deb http://x.example/y stable main"])[0].default_arch
     n = 150 if tier == "quick" else 3000
     for i in range(n):
